@@ -330,12 +330,19 @@ fn worker(ctx: &WorkerCtx) -> Result<(), Fail> {
         let mut st = ctx.stats.borrow_mut();
         guarded(|| keys_exhaustive(&mut st)).unwrap_or_else(Err).map_err(|d| Fail { case: json!({"keys": true}), detail: d })?;
     }
+    // boards assembled by builder histories (incl. rejected placements and removals) must hash
+    // like the parser's board of the same position: the hash is a function of the position only
+    run_proptest(ctx, 44, ctx.share(ctx.tier.pick(40_000, 1_000_000)), crate::c05_extra::builder_strategy(), |c| json!({"builder": c}), crate::c05_extra::builder_case)?;
     run_proptest(ctx, 4, ctx.share(ctx.tier.pick(40_000, 1_500_000)), play_strategy(60, 28), case_json, run_case)
 }
 
 fn replay(v: &Value) -> Result<(), String> {
     if v.get("keys").is_some() {
         return keys_exhaustive(&mut Stats::new());
+    }
+    if let Some(b) = v.get("builder") {
+        let c: crate::c05_extra::BuilderCase = serde_json::from_value(b.clone()).map_err(|e| e.to_string())?;
+        return crate::c05_extra::builder_case(&c, &mut Stats::new());
     }
     run_case(&case_from_json(v)?, &mut Stats::new())
 }
@@ -344,7 +351,7 @@ pub const C04: CheckDef = CheckDef {
     id: "C04",
     worker,
     replay,
-    rule: "(a) exhaustive: all 768 + 16 + 8 + 2 = 794 keys through the four public key functions are non-zero and pairwise distinct. (b) along generated playouts the moved board's zobrist()/std hash equal those of the same position built from scratch. (c) transpositions: from visited positions, a1 b1 a2 b2 against every reordering the reference accepts and that reaches the same key -> boards ==, zobrist and std hash equal; reversible manoeuvres returning to earlier keys; pairs differing only in clocks -> equal and hash equal. (d) single-component variants built from scratch (piece moved / retyped / recoloured / removed, other side to move, each smaller rights subset, marker added / removed / other file) -> != AND hash different. (e) ThreeFold::add/get against a HashMap<reference key, count> along the same histories, also queried with from-scratch boards. Non-trivial = a transposition pair, a variant pair, or a repeated position; distinct by (key, path).",
+    rule: "(a) exhaustive: all 768 + 16 + 8 + 2 = 794 keys through the four public key functions are non-zero and pairwise distinct. (b) along generated playouts the moved board's zobrist()/std hash equal those of the same position built from scratch. (c) transpositions: from visited positions, a1 b1 a2 b2 against every reordering the reference accepts and that reaches the same key -> boards ==, zobrist and std hash equal; reversible manoeuvres returning to earlier keys; pairs differing only in clocks -> equal and hash equal. (d) single-component variants built from scratch (piece moved / retyped / recoloured / removed, other side to move, each smaller rights subset, marker added / removed / other file) -> != AND hash different. (e) boards assembled by generated builder histories (rejected placements, removals) hash like the parser's board of the same position. (f) ThreeFold::add/get against a HashMap<reference key, count> along the same histories, also queried with from-scratch boards. Non-trivial = a transposition pair, a variant pair, or a repeated position; distinct by (key, path).",
     assumptions: &["hash inequality of different positions is checked on generated variants (a 64-bit collision by chance has probability 2^-64 per pair)", "oracle: refchess position key (placement, turn, rights, marker file)"],
     exhaustive: |_| false,
     uses_reference: true,
